@@ -57,6 +57,7 @@ fn main() {
         "crc-de" => framede::run_crc(&args),
         "acc-edges" => acc::run_edges(&args),
         "acc-stream" => acc::run_streams(&args),
+        "acc-link" => acc::run_link(&args),
         _ => panic!("unknown subcommand {cmd}"),
     }
 }
